@@ -1,4 +1,79 @@
-(* C02 — stub while the driver is brought up *)
+(* C02 — Every reported result is delivered exactly once, in order, never after stop/pause.
+   Only statements; every proof is [exact <lemma of proofs/FetchProofs.v>] (+ tiny glue).
+   Model: model/Fetch.v.  [run Generic init evs] executes ANY list of events: worker output
+   becoming visible in any batching (W (Emit i k) / Finish / Fail), start_trial, resume_trial, and
+   polls of ANY id list with ANY decision list (CONTINUE / PAUSE / STOP per delivered result, each
+   with the number of reports the worker still writes before it is gone).
+   [runs_of t] = for every run of trial t, in order: (reported, delivered, how the tuner saw it end). *)
 From Verif Require Import model.Base model.Fetch proofs.FetchProofs.
-Theorem c02_stub : True. Proof. exact I. Qed.
-Print Assumptions c02_stub.
+From Coq Require Import Sorting.Sorted.
+
+(* Hypotheses of the positive theorems (good_ev, per event):
+   - only tuner-level events (no raw Fetch/PauseT/StopT, which are not what Tuner.run does);
+   - the worker time stamps inside one run do not decrease (fetch_status_results sorts by them);
+   - no report is written in the window between a PAUSE decision and the worker's end
+     (second component of the decision = 0 for PAUSE; any number is allowed for STOP).
+   The last hypothesis cannot be dropped: see c02_nothing_after_decision_refuted. *)
+
+(* generic poll-based logic + the tuner's skip rule: for every trial and every one of its runs, what
+   was delivered is a gap-free prefix of what that run reported (each once, in report order), and
+   the whole list when the tuner saw the run complete on its own (no decision taken for it). *)
+Theorem c02_prefix_once_ordered_partial :
+  forall evs st x, Forall good_ev evs -> run Generic init evs = (st, x) ->
+  forall i t, nth_error (trials st) i = Some t ->
+    Forall (fun r => (exists k, snd (fst r) = firstn k (fst (fst r))) /\
+                     (snd r = DoneOk -> snd (fst r) = fst (fst r))) (runs_of t).
+Proof. exact generic_prefix_once_ordered. Qed.
+Print Assumptions c02_prefix_once_ordered_partial.
+(* full statement (without the window hypothesis) is false of the faithful model: refuted below. *)
+
+(* after a resume (and at the start) delivery begins with the first report of the new run *)
+Theorem c02_after_resume_first_partial :
+  forall evs st x, Forall good_ev evs -> run Generic init evs = (st, x) ->
+  forall i t, nth_error (trials st) i = Some t ->
+    Forall (fun r => snd (fst r) = [] \/
+                     exists a dl rp, snd (fst r) = a :: dl /\ fst (fst r) = a :: rp) (runs_of t).
+Proof.
+  intros evs st x Hg F i t Hi. eapply Forall_impl; [|exact (generic_prefix_once_ordered evs st x Hg F i t Hi)].
+  intros r Hr. apply run_ok_first. exact Hr.
+Qed.
+Print Assumptions c02_after_resume_first_partial.
+
+(* tabular simulator: a resumed job replays exactly the rows above the level it was paused at
+   (checkpointing), in table order; without checkpointing, or if the level is unknown, all rows *)
+Theorem c02_after_resume_first_tabular :
+  forall all p,
+    tab_results true (Some p) all = filter (fun r => Z.ltb p (fst r)) all /\
+    (forall r, In r (tab_results true (Some p) all) -> (p < fst r)%Z) /\
+    tab_results false (Some p) all = all /\ (forall ck, tab_results ck None all = all).
+Proof. exact tab_results_spec. Qed.
+Print Assumptions c02_after_resume_first_tabular.
+
+(* "Nothing a trial reports after the scheduler decided to pause it is ever delivered, not even after
+   the trial is resumed; after a resume delivery continues with the first report of the new run":
+   FALSE for the generic poll-based logic. Witness (the minimal one; replayed on the real code as
+   findings/C02-late-report-after-resume.json): run 1 of trial 0 reports a, b; a is visible and gets
+   PAUSE; the worker writes b before it is gone; the trial is resumed with run 2 = [c]; c becomes
+   visible; the poll delivers b and then c: the delivered list of run 2 is [b; c]. *)
+Theorem c02_nothing_after_decision_refuted :
+  exists evs st t,
+    Forall (fun e => tuner_ev e = true) evs /\
+    Forall (fun e => match e with Start reps | Resume _ reps => StronglySorted rle reps | _ => True end) evs /\
+    run Generic init evs = (st, None) /\ nth_error (trials st) 0%nat = Some t /\
+    runs_of t = [ ([(1, 0%Z); (2, 1%Z)], [(1, 0%Z)], Decided);
+                  ([(3, 100%Z)], [(2, 1%Z); (3, 100%Z)], Live) ]%Q.
+Proof. exact late_report_witness. Qed.
+Print Assumptions c02_nothing_after_decision_refuted.
+
+(* non-vacuity: a run with two trials, a skipped result, a pause without window report, a resume,
+   a STOP with a window report and a completion satisfies the hypotheses *)
+Example c02_example :
+  let evs := [ Start [(1, 0%Z); (2, 1%Z); (3, 2%Z)]; Start [(1, 10%Z); (4, 11%Z)];
+               W (Emit 0%nat 2%nat); W (Finish 1%nat);
+               Poll [0%nat; 1%nat] [(PAUSE, 0%nat); (CONT, 0%nat); (CONT, 0%nat)];
+               Resume 0%nat [(5, 3%Z); (6, 4%Z)]; W (Emit 0%nat 1%nat);
+               Poll [0%nat] [(STOP, 1%nat)] ]%Q in
+  Forall good_ev evs /\
+  exists st, run Generic init evs = (st, None) /\
+             out st = [(0%nat, 0%Z); (1%nat, 10%Z); (1%nat, 11%Z); (0%nat, 3%Z)].
+Proof. exact example_run. Qed.
